@@ -2,6 +2,7 @@ import PycsepVerif.Proto
 import PycsepVerif.Soft64
 import PycsepVerif.Model.Region
 import PycsepVerif.Model.RegionBuild
+import PycsepVerif.Model.RegionOps
 import PycsepVerif.RealOps
 /-!
   Driver ops of property C01.
@@ -31,6 +32,22 @@ import PycsepVerif.RealOps
      hash      per polygon `idx:idy` of `bin1d_vec(midpoints, xs / ys)`
      mask      rows `;`-separated, one character 0/1 per column;   idxmap   rows `;`-separated, entries index or `n`
      bbox      `get_bbox()` four rationals;   loc   polygon numbers or `IndexError`
+
+  `c01_masked <oxs> <oys> <dh> <contains> <decx> <decy> <decdh>`   masked_region (Model/RegionOps.lean `maskedRegionF`)
+     oxs oys     origins of the OLD region's polygons (polygons = compute_vertex(origin, dh, eps)); contains = 0/1 per polygon
+     decx decy decdh   `num_decimals` of the NEW region's min x, min y and dh
+   → `<xs> <ys> <hash> <kept>`   edge arrays and midpoint hash of the new region, old polygon number of every new polygon
+
+  `c01_incres <oxs> <oys> <dh> <factor>` → `<dh'> <xs> <ys>` (points in the order of the recursion; the harness compares as a set)
+     or `AssertionError`   (increase_grid_resolution, Model/RegionOps.lean `incRes`)
+
+  `c01_spacing <ax> <ay> <bx> <by>` → the spacing or `ValueError`   (grid_spacing)
+
+  `c01_filter <xs> <ys> <is> <js> <flagsA> <flagsB> <lons> <lats> <bound> <cstats> <ops>`   filter_spatial as a state machine
+     two regions A, B on the same polygons (different mask flags); bound = `a`/`b`/`n` region bound at construction; cstats = 0/1
+     `compute_stats` of the catalog; ops `;`-separated, each three characters: region argument `a`/`b`/`n`, update_stats 0/1, in_place 0/1;
+     every op is applied to the catalog object `self` as the previous op left it
+   → per op `E` or `<self events>!<self region a/b/n>!<out events>!<out stats>` ; events as `lon:lat` lists, stats four entries (`N` = None) or `-`
 
   `c01_area <oxbits> <oybits> <dhbits>` → per polygon the IEEE bits of `get_cell_area()` (binary64 `Float`, libm cosine)
 -/
@@ -105,6 +122,47 @@ def build (oxs oys : List Rat) (dh : Rat ⊕ (List Rat)) (flags : Option (List B
     showList (fun h => s!"{h.1}:{h.2}") b.hash, mask, imap,
     ",".intercalate [showRat bb.1, showRat bb.2.1, showRat bb.2.2.1, showRat bb.2.2.2], locs]
 
+
+def showPts (l : List (Rat × Rat)) : String := showList (fun p => s!"{showRat p.1}:{showRat p.2}") l
+def showOR (o : Option Rat) : String := match o with | none => "N" | some r => showRat r
+def showStats (o : Option Stats) : String :=
+  match o with
+  | none => "-"
+  | some s => ",".intercalate [showOR s.minLon, showOR s.maxLon, showOR s.minLat, showOR s.maxLat]
+
+def masked (oxs oys : List Rat) (dh : Rat) (contains : List Bool) (dec : Nat × Nat × Nat) : String :=
+  let polys := (oxs.zip oys).map (fun o => computeVertex o dh Soft64.eps64)
+  let b := maskedRegionF polys dh contains dec
+  " ".intercalate [showList showRat b.xs, showList showRat b.ys, showList (fun h => s!"{h.1}:{h.2}") b.hash,
+    showList toString (keptIdx contains)]
+
+def incres (oxs oys : List Rat) (dh factor : Rat) : String :=
+  match incRes 64 (oxs.zip oys) dh factor with
+  | none => "AssertionError"
+  | some (pts, h) => " ".intercalate [showRat h, showList (fun p => showRat p.1) pts, showList (fun p => showRat p.2) pts]
+
+def spacing (ax ay bx by_ : Rat) : String :=
+  match gridSpacing (ax, ay) (bx, by_) with
+  | .ok d => showRat d
+  | .error _ => "ValueError"
+
+def regTag (A B : Region) (r : Option Region) : String :=
+  match r with
+  | none => "n"
+  | some R => if R.cells == A.cells then "a" else if R.cells == B.cells then "b" else "?"
+
+def runOps (A B : Region) : Cat → List String → List String
+  | _, [] => []
+  | c, op :: ops =>
+    let ch := op.toList
+    let reg : Option Region := match ch.getD 0 'n' with | 'a' => some A | 'b' => some B | _ => none
+    let us := ch.getD 1 '0' == '1'
+    let ip := ch.getD 2 '0' == '1'
+    match c.filterSpatialOp reg us ip with
+    | .error _ => "E" :: runOps A B c ops
+    | .ok (c', out) =>
+      s!"{showPts c'.events}!{regTag A B c'.region}!{showPts out.events}!{showStats out.stats}" :: runOps A B c' ops
+
 local instance : NatCast Float := ⟨Float.ofNat⟩
 
 /-- numpy.pi -/
@@ -119,6 +177,29 @@ def handle : List String → Option String
             parseFlags? fl, decx.toNat?, decy.toNat?, decdh.toNat?, parseList? parseInt? loc with
       | some oxs, some oys, some dh, some fl, some dx, some dy, some dd, some loc =>
         build oxs oys dh fl (dx, dy, dd) (arrays == "1") loc
+      | _, _, _, _, _, _, _, _ => "bad-op")
+  | ["c01_masked", oxs, oys, dh, cont, decx, decy, decdh] => some (
+      match parseList? parseRat? oxs, parseList? parseRat? oys, parseRat? dh, parseList? parseNat? cont,
+            decx.toNat?, decy.toNat?, decdh.toNat? with
+      | some oxs, some oys, some dh, some cont, some dx, some dy, some dd => masked oxs oys dh (cont.map (· == 1)) (dx, dy, dd)
+      | _, _, _, _, _, _, _ => "bad-op")
+  | ["c01_incres", oxs, oys, dh, factor] => some (
+      match parseList? parseRat? oxs, parseList? parseRat? oys, parseRat? dh, parseRat? factor with
+      | some oxs, some oys, some dh, some f => incres oxs oys dh f
+      | _, _, _, _ => "bad-op")
+  | ["c01_spacing", ax, ay, bx, by_] => some (
+      match parseRat? ax, parseRat? ay, parseRat? bx, parseRat? by_ with
+      | some ax, some ay, some bx, some by_ => spacing ax ay bx by_
+      | _, _, _, _ => "bad-op")
+  | ["c01_filter", xs, ys, is, js, fa, fb, lons, lats, bound, cstats, ops] => some (
+      match parseList? parseRat? xs, parseList? parseRat? ys, parseList? parseNat? is, parseList? parseNat? js,
+            parseList? parseNat? fa, parseList? parseNat? fb, parseList? parseRat? lons, parseList? parseRat? lats with
+      | some xs, some ys, some is, some js, some fa, some fb, some lons, some lats =>
+        let A := Region.new xs ys (topOf xs) (topOf ys) (mkCells is js fa)
+        let B := Region.new xs ys (topOf xs) (topOf ys) (mkCells is js fb)
+        let reg : Option Region := if bound == "a" then some A else if bound == "b" then some B else none
+        let c := Cat.mk' (lons.zip lats) reg (cstats == "1")
+        " ".intercalate (runOps A B c (ops.splitOn ";"))
       | _, _, _, _, _, _, _, _ => "bad-op")
   | ["c01_area", ox, oy, dh] => some (
       match parseList? parseFloat? ox, parseList? parseFloat? oy, parseFloat? dh with
